@@ -359,8 +359,13 @@ pub fn generate(seed: u64, flavor: &str) -> RunSpec {
                     let cands: Vec<usize> = (0..MAX_ITERS).filter(|&k| open[k]).collect();
                     let it = *rng.pick(&cands);
                     open[it] = false;
-                    Op::DropIter { it }
+                    if rng.chance(20, 100) {
+                        Op::ForgetIter { it }
+                    } else {
+                        Op::DropIter { it }
+                    }
                 }
+                98 => Op::DebugFmt { slot },
                 88..=90 => Op::Recompile { slot },
                 91..=95 => {
                     // another object: same key (twin), a flag variant, or another family
